@@ -156,6 +156,13 @@ def process_case(draw, kinds=KINDS, models=("NRTL", "UNIQUAC"), removal=(1e-6, 0
         "removal": draw(gen.loguniform(*removal)), "area": draw(gen.loguniform(1e-3, 1e3)), "amount": draw(gen.loguniform(1e-3, 1e3)),
         "program": draw(st.one_of(st.none(), program_spec())) if (programs and kind.endswith("noniso")) else None,
     }
+    if kind.endswith("noniso") and programs and case["steps"] >= 3 and draw(st.integers(0, 9)) == 0:
+        # programme that leaves the initial temperature and returns to it exactly at step j (integer start temperature)
+        case["T"] = int(round(case["T"]))
+        case["program"] = {"return_at": draw(st.integers(2, case["steps"] - 1)), "r": draw(st.sampled_from([-8, -4, -2, -1, 1, 2, 4, 8])),
+                           "type": "polynomial"}
+        if case["perm"]["mode"] == "temperature":
+            case["perm"] = dict(case["perm"], T=min(case["perm"]["T"], case["T"] - 40.0))
     if draw(st.integers(0, 9)) == 0:
         # numeric TYPE class: integer-valued inputs given as Python ints (a 333 K feed, 2 m2, 12 kg)
         case["T"] = int(round(case["T"]))
@@ -214,7 +221,34 @@ def step0_permeances(case, s):
     return truth_value(tr[0], s.w0, case["T"]), truth_value(tr[1], s.w0, case["T"])
 
 
+def returning_program(case, dt):
+    """Polynomial programme T0 + r x - (r/xj) x^2 that comes back EXACTLY to the initial temperature at step j: the step length is
+    a power of two, T0 an integer and r a small integer, so every operation is exact (a branch that tests
+    `temperature == initial temperature` is taken again in the middle of the run)."""
+    spec = case.get("program") or {}
+    j = spec.get("return_at")
+    xj = j * dt
+    return {"type": "polynomial", "coefficients": [float(case["T"]), float(spec["r"]), -float(spec["r"]) / xj]}
+
+
+def program_for(case, dt):
+    """The materialised programme of a case for the step length dt (None without a programme)."""
+    spec = case.get("program")
+    if not spec:
+        return None
+    if spec.get("return_at"):
+        return returning_program(case, dt)
+    return materialise_program(spec, case["T"], dt * case["steps"])
+
+
 def step_length(case, s):
+    dt = _step_length(case, s)
+    if (case.get("program") or {}).get("return_at"):
+        dt = 2.0 ** round(math.log2(dt))
+    return dt
+
+
+def _step_length(case, s):
     """delta_hours such that step 0 removes about `removal` of the feed (from a standalone flux calculation)."""
     p1, p2 = step0_permeances(case, s)
     j = call(s.pv.calculate_partial_fluxes, feed_temperature=case["T"], composition=build.composition(s.w0, "weight"),
@@ -240,16 +274,20 @@ def conditions_spec(case, s, dt, area=None, amount=None):
 
 
 def _conditions_spec(case, s, dt, area=None, amount=None):
+    if (case.get("program") or {}).get("return_at"):
+        prog = returning_program(case, dt)
+        return {"area": case["area"] if area is None else area, "T": case["T"], "amount": case["amount"] if amount is None else amount,
+                "x": s.x, "basis": s.basis, "Tp": case["perm"]["T"], "pp": case["perm"]["p"], "program": prog}
     return {"area": case["area"] if area is None else area, "T": case["T"], "amount": case["amount"] if amount is None else amount,
             "x": s.x, "basis": s.basis, "Tp": case["perm"]["T"], "pp": case["perm"]["p"],
-            "program": materialise_program(case.get("program"), case["T"], dt * case["steps"])}
+            "program": program_for(case, dt)}
 
 
 def run(case, s, dt, cond_spec=None, kind=None, steps=None):
     """Runs the process model of the case; returns ProcessModel | Raised."""
     kind = kind or case["kind"]
     cond = build.conditions(cond_spec or conditions_spec(case, s, dt))
-    preuse(cond.initial_feed_composition)
+    preuse(cond.initial_feed_composition, s.mix)
     n = steps or case["steps"]
     pv = s.pv
     case = dict(case, model=build.fresh(case["model"]))
@@ -300,14 +338,40 @@ def failed_calls_once():
         shutil.rmtree(d, ignore_errors=True)
     call(build.composition, 1.5, "weight")
     call(build.Mixture, name="X", first_component=build.Components.H2O, second_component=build.Components.EtOH)
-
-
-def preuse(comp):
-    """Uses a Composition object with ANOTHER mixture before it is handed to the code under test (a no-op on correct code;
-    exposes conversion results memoised on the instance)."""
+    # flux calculations that must be rejected: model without its parameters, both permeate conditions, lone experiment without Ea
     from pyvaporation import Mixtures
 
-    for other in (Mixtures.H2O_iPOH, Mixtures.MeOH_Toluene):
+    h2o, etoh = build.Components.H2O, build.Components.EtOH
+    only_nrtl = build.Mixture(name="ONLY_NRTL", first_component=h2o, second_component=etoh, nrtl_params=Mixtures.H2O_EtOH.nrtl_params)
+    only_uq = build.Mixture(name="ONLY_UQ", first_component=h2o, second_component=etoh, uniquac_params=Mixtures.H2O_EtOH.uniquac_params)
+    spec = {"name": "M", "e1": [{"T": 330.0, "value": 0.01, "units": build.KG, "Ea": 20000.0}],
+            "e2": [{"T": 330.0, "value": 0.001, "units": build.KG, "Ea": None}]}
+    for mix, mdl in ((only_nrtl, "UNIQUAC"), (only_uq, "NRTL"), (only_nrtl, "NRTL")):
+        pv = build.Pervaporation(membrane=build.membrane(spec, mix), mixture=mix)
+        for x in (0.3, 0.0, 1.0):
+            comp = build.composition(x, "weight")
+            call(pv.calculate_partial_fluxes, feed_temperature=330.0, composition=comp, calculation_type=mdl)
+            call(pv.calculate_partial_fluxes, feed_temperature=330.0, composition=comp, permeate_temperature=280.0, permeate_pressure=1.0,
+                 calculation_type="NRTL")
+            call(pv.calculate_partial_fluxes, feed_temperature=345.0, composition=comp, calculation_type="NRTL")  # lone experiment, no Ea
+            call(pv.ideal_diffusion_curve, 330.0, [comp], None, None, 5e-5, mdl)
+    call(build.DiffusionCurve, mixture=only_nrtl, membrane_name="M", feed_temperature=330.0, feed_compositions=[build.composition(0.3, "weight")])
+    call(build.permeance(1.0).convert, "SI", None)
+
+
+def preuse(comp, mix=None):
+    """Uses a Composition object with OTHER mixtures before it is handed to the code under test (a no-op on correct code;
+    exposes conversion results memoised on the instance) - built-in ones and, when the case's mixture is known, a mixture of the
+    SAME NAME with different molar masses (user-defined mixtures may share a name)."""
+    import attr as _attr
+    from pyvaporation import Mixtures
+
+    others = [Mixtures.H2O_iPOH, Mixtures.MeOH_Toluene]
+    if mix is not None:
+        others.append(build.Mixture(name=mix.name, nrtl_params=mix.nrtl_params, uniquac_params=mix.uniquac_params,
+                                    first_component=_attr.evolve(mix.first_component, molecular_weight=mix.first_component.molecular_weight * 2.5),
+                                    second_component=_attr.evolve(mix.second_component, molecular_weight=mix.second_component.molecular_weight * 0.7)))
+    for other in others:
         call(comp.to_weight, other)
         call(comp.to_molar, other)
     return comp
